@@ -108,6 +108,13 @@ class CompressedFileHandler(FileHandler):
     def write(self, wfile):
         decompprog = self.decompressors[self.getentry().realencoding]
         with self.vfs.open(self.getselector(), "rb") as fp:
+            try:
+                fp.fileno()
+                source = {"stdin": fp}
+            except (AttributeError, OSError):
+                # Not a file of the operating system (an archive member):
+                # the decompressor gets the data through a pipe.
+                source = {"input": fp.read()}
             run_to_wfile(
-                [decompprog], wfile, not self.protocol.check_tls(), stdin=fp
+                [decompprog], wfile, not self.protocol.check_tls(), **source
             )
